@@ -41,6 +41,10 @@ fn under_inverse(
     thread_local! {
         static CACHE: RefCell<HashMap<Key, InversionResult<(Node, Node)>>> = Default::default();
     }
+    #[cfg(feature = "verif_hooks")]
+    if crate::verif::c12::bypassed(crate::verif::c12::UNDER) {
+        CACHE.with(|cache| cache.borrow_mut().clear());
+    }
     let mut hasher = RapidHasher::new(1);
     for node in input {
         node.hash_with_span(&mut hasher);
